@@ -46,7 +46,7 @@ def log(*a):
 
 def build_flags():
     """-D / -I flags of the real build, from _build/build.ninja (so macros/include order match the tested library)."""
-    nin = os.path.join(REPO, '_build', 'build.ninja')
+    nin = os.path.join('/repo', '_build', 'build.ninja')   # generated headers and flags always come from /repo/_build
     defs = incs = None
     if os.path.exists(nin):
         lines = open(nin, errors='replace').read().split('\n')
@@ -59,7 +59,7 @@ def build_flags():
                 break
     src = 'build.ninja'
     if not defs or not incs:
-        defs = FALLBACK_DEFS; incs = FALLBACK_INCS % dict(R=REPO); src = 'recorded copy'
+        defs = FALLBACK_DEFS; incs = FALLBACK_INCS % dict(R='/repo'); src = 'recorded copy'
     if REPO != '/repo': incs = incs.replace('/repo/src', REPO + '/src')   # generated headers stay in /repo/_build
     return defs.split(), incs.split(), src
 
@@ -369,7 +369,9 @@ def check(pid, tier, seed, spec, known, fixed, work, only, jobs, t_start):
         results = list(ex.map(worker, tasks))
     # violations: trace + native replay
     out_lines = []; violations = 0; inconclusive = [('build', e) for e in build_errors]; kf_seen = set()
-    rdir = os.path.join(VERIF, 'replay', pid); os.makedirs(rdir, exist_ok=True)
+    # scratch-worktree runs (VP_REPO set: mutation experiments) never touch /verif/replay or /verif/evidence
+    OUT = VERIF if REPO == '/repo' else os.path.join(tempfile.gettempdir(), 'vp_out_' + re.sub(r'\W', '_', REPO))
+    rdir = os.path.join(OUT, 'replay', pid); os.makedirs(rdir, exist_ok=True)
     for grp, inst, r in results:
         kf = inst.get('known_finding')
         if r['status'] == 'violation':
@@ -452,8 +454,9 @@ def write_evidence(pid, tier, seed, spec, built, results, violations, inconclusi
                   exhaustive=False),
               assumptions=spec.get('assumptions', []) + ['environment models listed under coverage.models_used', 'C++ exceptions and allocation failure are out of scope (opt -lowerinvoke, --no-malloc-may-fail)',
                                                          'build flags source: ' + (built[0].flag_source if built else 'n/a')])
-    os.makedirs(os.path.join(VERIF, 'evidence'), exist_ok=True)
-    json.dump(ev, open(os.path.join(VERIF, 'evidence', pid + '.json'), 'w'), indent=1)
+    OUT = VERIF if REPO == '/repo' else os.path.join(tempfile.gettempdir(), 'vp_out_' + re.sub(r'\W', '_', REPO))
+    os.makedirs(os.path.join(OUT, 'evidence'), exist_ok=True)
+    json.dump(ev, open(os.path.join(OUT, 'evidence', pid + '.json'), 'w'), indent=1)
 
 if __name__ == '__main__':
     main()
